@@ -84,6 +84,7 @@ class Env:
     """What a subject needs from the run: hash strategy, scratch tree, counters."""
 
     def __init__(self, ctx, cfg, need_fs=True):
+        seams.SURROGATE_OK = cfg.get("hash") == "fnv"
         self.ctx = ctx
         self.hf = seams.make_list_hash(cfg["hash"], cfg["hseed"], cfg.get("squeeze", 0))
         self.scr = seams.Scratch(ctx.scratch) if need_fs else None
@@ -135,6 +136,21 @@ class Subject:
             return common.read_fresh(self.env.scr.abspath(d, name))
         if chan == "hex":
             return obj.export_hex()
+        if chan == "mmap":
+            import mmap as _mmap
+
+            size = len(bytes(obj))
+            path = self.env.scr.abspath("b", self.env.fresh_name("mm"))
+            with open(path, "wb") as fh:
+                fh.write(b"\x00" * size)
+            with open(path, "r+b") as fh:
+                mm = _mmap.mmap(fh.fileno(), size)
+                try:
+                    obj.export(mm)
+                    mm.flush()
+                finally:
+                    mm.close()
+            return common.read_fresh(path)
         raise HarnessError(chan)
 
     def close(self):
@@ -215,11 +231,14 @@ class BloomSubject(Subject):
         hf = self.env.hf
         if chan in ("bytes", "fileobj"):
             return C.frombytes(byteslike(payload, self.variant), hash_function=hf)
+        # the documented initialisation order is file, hex string, parameters: sizing arguments given in addition to
+        # a source must not win over it
+        extra = {"est_elements": self.cfg["est"] + 3, "false_positive_rate": 0.3} if self.variant == 2 else {}
         if chan == "path":
             d, name = where
-            return C(filepath=self.env.scr.spell(d, name, style), hash_function=hf)
+            return C(filepath=self.env.scr.spell(d, name, style), hash_function=hf, **extra)
         if chan == "hex":
-            return C(hex_string=payload, hash_function=hf)
+            return C(hex_string=payload, hash_function=hf, **extra)
         raise HarnessError(chan)
 
     def expected_hex(self, payload):
@@ -377,7 +396,8 @@ class ExpandingSubject(Subject):
             return C.frombytes(byteslike(payload, self.variant), hash_function=self.env.hf)
         if chan == "path":
             d, name = where
-            return C(filepath=self.env.scr.spell(d, name, style), hash_function=self.env.hf)
+            extra = {"est_elements": self.cfg["est"] + 2, "false_positive_rate": 0.4} if self.variant == 2 else {}
+            return C(filepath=self.env.scr.spell(d, name, style), hash_function=self.env.hf, **extra)
         raise HarnessError(chan)
 
     def observe(self, obj=None):
@@ -535,6 +555,8 @@ class SketchSubject(Subject):
             return C.frombytes(byteslike(payload, self.variant), hash_function=self.env.hf, **kw)
         if chan == "path":
             d, name = where
+            if self.variant == 2:
+                kw = dict(kw, width=7, depth=2)  # a file wins over width and depth
             return C(filepath=self.env.scr.spell(d, name, style), hash_function=self.env.hf, **kw)
         raise HarnessError(chan)
 
